@@ -166,6 +166,15 @@ def run(ctx):
     quick = ctx.tier == "quick"
     texts = ["", " ", "\xa0", "a", " a ", "a  b", "a\xa0\xa0b", "a\xa0\tb", "\ta\n", "a \t b", "a\t b", "a\tb", "　a　", "a  b"]
     texts += [rand_text(rng, rng.randint(0, 14)) for _ in range(3000 if quick else 60000)]
+    # a string is text unless the caller says otherwise: strings that LOOK like XML (declaration, processing instruction,
+    # a whole well-formed document, a truncated one) are normalised as text like any other string
+    texts += ['<?xml version="1.0"?><a>b   c</a><!-- x   y -->', ' <?xml version="1.0"?>\n<a>b\xa0\xa0c</a>', "<?xml", "<?xml  not   well formed",
+              '<?xml-stylesheet  href="a.xsl"?>  <a/>', "\ufeff<?xml version='1.0'?><a> b </a>", "<a>  b   c </a>", "<!DOCTYPE a>  <a/>", "<a",
+              "<?XML x?>  y", "<!-- c   d -->", "<![CDATA[ a   b ]]>", "&lt;?xml  a"]
+    for _ in range(150 if quick else 1500):
+        d = gen_elem(rng, 0)
+        texts.append(rng.choice(["", '<?xml version="1.0"?>', '<?xml version="1.0" encoding="UTF-8"?>\n', " <?xml version='1.0'?>  ", "\n"]) + d)
+        texts.append(d[: rng.randint(0, len(d))])
     fails, diffs, samples = [], [], []
     res = []
     for s in texts:
